@@ -44,6 +44,7 @@ type MemSock struct {
 	once    sync.Once
 	pumped  chan struct{}
 	nClose  int
+	handing int // 1 while the pump is blocked handing a frame to the client
 }
 
 // ErrMemSockClosed is returned by Send after Close.
@@ -84,7 +85,13 @@ func (s *MemSock) pump() {
 		}
 		// Like the real receivers: once a frame has been read it is handed over with a plain blocking
 		// send. Closing the socket does not release a receiver that is blocked here - only a reader does.
+		s.mu.Lock()
+		s.handing = 1
+		s.mu.Unlock()
 		s.inbound <- next
+		s.mu.Lock()
+		s.handing = 0
+		s.mu.Unlock()
 		if s.OnDelivered != nil {
 			s.OnDelivered(next)
 		}
@@ -107,6 +114,14 @@ func (s *MemSock) Pending() int {
 	s.mu.Lock()
 	defer s.mu.Unlock()
 	return len(s.queue)
+}
+
+// Untaken returns the number of injected frames the client has not taken, the one the pump is trying to hand over
+// included.
+func (s *MemSock) Untaken() int {
+	s.mu.Lock()
+	defer s.mu.Unlock()
+	return len(s.queue) + s.handing
 }
 
 // Send implements knxnet.Socket.
